@@ -516,3 +516,89 @@ func H_C12_adjacent(eol, _ int) {
 	}
 	vdigest(out)
 }
+
+// H_C12_fallback(form, _): a shortcut reference (form 0) or shortcut image (form 1)
+// directly followed by a '[' that does NOT begin a link label - an unclosed bracket,
+// a label containing an unescaped bracket, or "[" + line ending: "a shortcut reference
+// link consists of a link label that matches a link reference definition elsewhere in
+// the document and is not followed by [] or a link label" (CommonMark 0.30 section
+// 6.3), so the reference resolves exactly when its own label matches.
+func H_C12_fallback(form, _ int) {
+	variants := []string{"foo bar", "FOO BAR", "Foo  Bar", "fox"}
+	use := variants[vconcrete(nondetInt(0, len(variants)-1))]
+	tail := []string{"[b", "[b[c]", "[\n", "[b\\]"}[vconcrete(nondetInt(0, 3))]
+	w := nondetByte()
+	assume(isL(w))
+	var doc []byte
+	if form == 1 {
+		doc = append(doc, '!')
+	}
+	doc = append(doc, "["+use+"]"+tail...)
+	doc = append(doc, w)
+	doc = append(doc, "\n\n[foo bar]: /u\n"...)
+	blocks, refs := Parse(doc)
+	out := renderWith(&HTMLRenderer{ReferenceMap: refs}, blocks[:1])
+	want := "<p><a href=\"/u\">" + use + "</a>"
+	if form == 1 {
+		want = "<p><img src=\"/u\" alt=\"" + use + "\">"
+	}
+	resolved := len(out) >= len(want) && string(out[:len(want)]) == want
+	if use == "fox" {
+		check(!hasLink(blocks[0].AsNode()), "C12.fallback.should-not-resolve")
+	} else {
+		check(resolved, "C12.fallback.shortcut-resolves")
+	}
+	vdigest(out)
+}
+
+// H_C12_limit(n, _): "A link label can have at most 999 characters inside the square
+// brackets": a label of n characters (n-1 times 'a' and a free letter; optionally the
+// last two characters are an escaped bracket, optionally the label is padded with a
+// space on each side, which counts) defines and resolves - as a definition, a shortcut
+// and a full reference - exactly when n <= 999.
+func H_C12_limit(n, _ int) {
+	w := nondetByte()
+	assume(isL(w))
+	var label []byte
+	switch vconcrete(nondetInt(0, 2)) {
+	case 0:
+		for i := 0; i < n-1; i++ {
+			label = append(label, 'a')
+		}
+		label = append(label, w)
+	case 1:
+		for i := 0; i < n-3; i++ {
+			label = append(label, 'a')
+		}
+		label = append(label, w, '\\', ']')
+	default:
+		label = append(label, ' ')
+		for i := 0; i < n-3; i++ {
+			label = append(label, 'a')
+		}
+		label = append(label, w, ' ')
+	}
+	var doc []byte
+	doc = append(doc, '[')
+	doc = append(doc, label...)
+	doc = append(doc, "]: /u\n\n["...)
+	doc = append(doc, label...)
+	doc = append(doc, "] [x]["...)
+	doc = append(doc, label...)
+	doc = append(doc, "]\n"...)
+	blocks, refs := Parse(doc)
+	out := renderWith(&HTMLRenderer{ReferenceMap: refs}, blocks)
+	links := 0
+	for i := 0; i+9 <= len(out); i++ {
+		if string(out[i:i+9]) == "href=\"/u\"" {
+			links++
+		}
+	}
+	if n <= 999 {
+		check(len(refs) == 1, "C12.limit.definition-accepted")
+		check(links == 2, "C12.limit.references-resolve")
+	} else {
+		check(len(refs) == 0 && links == 0, "C12.limit.over-long-label-rejected")
+	}
+	vdigest(out[:16])
+}
